@@ -171,7 +171,7 @@ class C13(core.Check):
         'amb:key-vs-label', 'amb:register-vs-numeric', 'amb:indexed-vs-label-expression', 'reject:register-in-numeric-position',
         'reject:register-inside-expression', 'reject:no-variant-takes-count', 'mnemonic:upper', 'mnemonic:mixed',
         'chosen:variant>=2', 'chosen:specific', 'expect:ACCEPT', 'expect:REJECT',
-        'later-candidate-after-nonaccepting-earlier', 'amb:disallowed-pair-mirrored-is-allowed']}
+        'later-candidate-after-nonaccepting-earlier', 'amb:disallowed-pair-mirrored-is-allowed', 'amb:two-specific-entries-accept']}
 
     def gen_isa(self, rng):
         pool = alt_pool(rng)
@@ -201,14 +201,20 @@ class C13(core.Check):
                     ids = [rng.choice(sorted(sets[s]['operand_values'])) for s in ops['operand_sets']['list']]
                     ops['operand_sets']['disallowed_pairs'] = [ids]
             if r >= 0.55:
-                lst = {}
-                for k in range(cnt):
-                    p = rng.choice(names)
-                    lst[f'sp{vi}_{k}_{p}'] = dict(pool[p])
-                    # a distinct code for the specific instance of the alternative
-                    if 'bytecode' in lst[f'sp{vi}_{k}_{p}'] and 'value' in lst[f'sp{vi}_{k}_{p}']['bytecode']:
-                        lst[f'sp{vi}_{k}_{p}'] = dict(lst[f'sp{vi}_{k}_{p}'], bytecode=dict(lst[f'sp{vi}_{k}_{p}']['bytecode'], value=31 - vi))
-                ops['specific_operands'] = {'only': {'list': lst}}
+                # one or two explicitly listed combinations; their names are deliberately NOT in alphabetical order, and they
+                # are tried in definition order
+                entries = {}
+                for en, ename in enumerate(['zeta_first', 'alpha_second'][:rng.choice([1, 2, 2])]):
+                    lst = {}
+                    for k in range(cnt):
+                        p = rng.choice(names)
+                        key = f'sp{vi}_{en}_{k}_{p}'
+                        lst[key] = dict(pool[p])
+                        # a distinct code for the specific instance of the alternative
+                        if 'bytecode' in lst[key] and 'value' in lst[key]['bytecode']:
+                            lst[key] = dict(lst[key], bytecode=dict(lst[key]['bytecode'], value=31 - vi - 4 * en))
+                    entries[ename] = {'list': lst}
+                ops['specific_operands'] = entries
             variants.append({'bytecode': {'value': 0xA0 + vi, 'size': 8}, 'operands': ops})
         if rng.random() < 0.3:
             variants.append({'bytecode': {'value': 0xAF, 'size': 8}})       # a variant without operands
@@ -237,18 +243,23 @@ class C13(core.Check):
             if ops['count'] != len(operands):
                 continue
             if 'specific_operands' in ops:
-                lst = ops['specific_operands']['only']['list']
-                got = []
-                for (name, conf), o in zip(lst.items(), operands):
-                    op = accepts(name, conf, o, addr)
-                    if op is None:
-                        got = None
-                        break
-                    got.append(op)
-                if got is not None:
-                    cand = ('v%d/specific' % vi, {'mn': 'amb', 'variant': vi, 'spec': 'only', 'ops': got})
-                    info['accepting'].append(cand[0])
-                    chosen = chosen or cand
+                n_acc = 0
+                for ename, entry in ops['specific_operands'].items():
+                    lst = entry['list']
+                    got = []
+                    for (name, conf), o in zip(lst.items(), operands):
+                        op = accepts(name, conf, o, addr)
+                        if op is None:
+                            got = None
+                            break
+                        got.append(op)
+                    if got is not None:
+                        n_acc += 1
+                        cand = ('v%d/specific' % vi, {'mn': 'amb', 'variant': vi, 'spec': ename, 'ops': got})
+                        info['accepting'].append(cand[0] + ':' + ename)
+                        chosen = chosen or cand
+                if n_acc >= 2:
+                    info['two_specific_entries_accept'] = True
             if 'operand_sets' in ops:
                 got = []
                 for sname, o in zip(ops['operand_sets']['list'], operands):
@@ -314,7 +325,7 @@ class C13(core.Check):
                     if 'operand_sets' in ops_ and (rng.random() < 0.7 or 'specific_operands' not in ops_):
                         confs = list(isa['operand_sets'][ops_['operand_sets']['list'][k]]['operand_values'].values())
                     elif 'specific_operands' in ops_:
-                        confs = [list(ops_['specific_operands']['only']['list'].values())[k]]
+                        confs = [list(e_['list'].values())[k] for e_ in ops_['specific_operands'].values()]
                     cand = [t for t in texts if any(accepts('x', c, t, 0) is not None for c in confs)]
                     operands.append(rng.choice(cand) if cand else rng.choice(texts))
             else:
@@ -341,10 +352,12 @@ class C13(core.Check):
             if kind == 'ACCEPT':
                 if len(acc) >= 2:
                     vset = {a.split('/')[0] for a in acc}
+                    if info.get('two_specific_entries_accept'):
+                        tags.add('amb:two-specific-entries-accept')
                     if len(vset) >= 2:
                         tags.add('amb:variant1-and-2-accept')
-                    if any(a.endswith('/specific') for a in acc) and any(a.endswith('/sets') and a.split('/')[0] in
-                                                                         {x.split('/')[0] for x in acc if x.endswith('/specific')} for a in acc):
+                    if any('/specific' in a for a in acc) and any(a.endswith('/sets') and a.split('/')[0] in
+                                                                         {x.split('/')[0] for x in acc if '/specific' in x} for a in acc):
                         tags.add('amb:specific-and-set-accept')
                 if info.get('disallowed_hit'):
                     tags.add('amb:disallowed-pair-hit')
